@@ -40,6 +40,10 @@ type Entry[K comparable, V any] struct {
 	policyWeight int64          // Protected by the policy mutex.
 	expire       atomic.Int64   // Protected by the shard mutex.
 	flag         Flag           // Protected by the policy mutex.
+	// rewritten is set, under the shard mutex, when the value of a resident entry is
+	// replaced in place: a copy of the old value in the secondary cache is stale from
+	// then on, whatever the policy's from-NVM flag says until the update's event arrives.
+	rewritten atomic.Bool
 }
 
 // used in test only
